@@ -411,7 +411,7 @@ pub fn run(ctx: &Ctx) -> Report {
     total.merge(tr);
     Report {
         stats: total,
-        rule: "expressions with 0..300 matcher requests (-name/-iname/-path/-ipath over a pool with deliberate repeats, case-only twins, literal/pattern pairs) and printer requests (stdout and files x three terminators) in random first-occurrence order, in plain and framed mode. Oracle: scope analysis of the program read by the independent reader: every let* name bound once, every use resolves to an earlier let* binding, an enclosing lambda parameter or the runtime vocabulary; the generated references of the policy body, zipped in evaluation order with the tree's leaves, must resolve to that leaf's resource (matcher: (lambda (v) (fn? \"pattern\" v)) with fn chosen by glob/case and the decoded pattern; printer: port/terminator in plain mode, tag -> destination table in framed mode); identical requests share an identifier, different ones never do; plus a behavioural run on files matching one pattern each. A quarter of the trees whose canonical command line parses back to the same tree are also rendered in a layout variant (separators, quoting, blanks left out next to punctuation): if that text is accepted, the requests it makes (kind and string, in order) must be the ones written. Also pairs of patterns/destinations whose std-hasher values agree in the low 32 bits (birthday search at run time, six ways of feeding the hasher) or that weak fingerprints confuse. Non-trivial: both resource kinds present and at least one repeated request. Distinct: by tree.".into(),
+        rule: "expressions with 0..300 matcher requests (-name/-iname/-path/-ipath over a pool with deliberate repeats, case-only twins, literal/pattern pairs) and printer requests (stdout and files x three terminators) in random first-occurrence order, in plain and framed mode. Oracle: scope analysis of the program read by the independent reader: every let* name bound once, every use resolves to an earlier let* binding, an enclosing lambda parameter or the runtime vocabulary; the generated references of the policy body, zipped in evaluation order with the tree's leaves, must resolve to that leaf's resource (matcher: (lambda (v) (fn? \"pattern\" v)) with fn chosen by glob/case and the decoded pattern; printer: port/terminator in plain mode, tag -> destination table in framed mode); identical requests share an identifier, different ones never do; plus a behavioural run on files matching one pattern each. A quarter of the trees whose canonical command line parses back to the same tree are also rendered in a layout variant (separators, quoting, blanks left out next to punctuation): if that text is accepted, the requests it makes (kind and string, in order) must be the ones written. Also pairs of patterns/destinations whose std-hasher values agree in the low 32 bits (birthday search at run time, six ways of feeding the hasher) or that weak fingerprints confuse. Also: interaction triples, concatenation / escape / long-prefix twins, strings of two leaves related (equal string as pattern and file name, prefix, suffix, other case, escaped form), 33 000 distinct matchers followed by requests for early and late ones again (structure only), the trees of the policy fuzz corpus. Non-trivial: both resource kinds present and at least one repeated request. Distinct: by tree.".into(),
         assumptions: crate::checks::c02::runtime_assumptions(),
         exhaustive: false,
     }
